@@ -49,6 +49,16 @@ func main() {
 		for _, l := range eng.NewCtx(p).BaselineLines() {
 			fmt.Println(l)
 		}
+	case "dropped":
+		p, err := load.Load(load.Config{Patterns: []string{"./" + os.Args[2]}})
+		if err != nil {
+			fmt.Println(err)
+			os.Exit(2)
+		}
+		ctx := eng.NewCtx(p)
+		for _, d := range eng.DroppedErrors(ctx.Funcs(os.Args[2])) {
+			fmt.Printf("%s\t%s\t%s\tdeferred=%v\n", ctx.InstrPos(d.Instr), eng.Name(d.Fn), d.Callee, d.Deferred)
+		}
 	case "warm":
 		p, err := load.Load(load.Config{})
 		if err != nil {
